@@ -205,3 +205,21 @@ def replays(failed):
     yield ("=== on ints", "print(1 === 1)\n", exp(err="can't apply '===' to 'int' and 'int'"))
     yield ("< on strings", "print(\"a\" < \"b\")\n", exp(err="can't apply '<'"))
     yield ("7 / -2", "print(7 / (-2))\nprint((-7) % 2)\n", exp(out="-3\n-1\n"))
+    MIN = "(-9223372036854775807 - 1)"
+    yield ("the smallest integer modulo -1 is 0", f"print({MIN} % (-1))\nx := {MIN}\nx %= -1\nprint(x)\n", exp(out="0\n0\n"))
+    yield ("the smallest integer divided by -1 overflows", f"print({MIN} / (-1))\n", exp(err="caused an integer overflow"))
+    yield ("division and remainder by zero are errors", "print(1 / 0)\n", exp(err="1:"))
+    yield ("remainder by zero is an error", "print(1 % 0)\n", exp(err="1:"))
+    yield ("subtraction of the smallest integer", f"print(-1 - {MIN})\nprint({MIN} - {MIN})\n", exp(out="9223372036854775807\n0\n"))
+    yield ("addition overflow is an error", "print(9223372036854775807 + 1)\n", exp(err="caused an integer overflow"))
+    yield ("multiplication overflow is an error", "print(4611686018427387904 * 2)\n", exp(err="caused an integer overflow"))
+    yield ("multiplication at the boundary", f"print({MIN} * 1)\nprint(-1 * 9223372036854775807)\n", exp(out="-9223372036854775808\n-9223372036854775807\n"))
+    yield ("comparisons agree with the mathematical order", f"print(1 < 2)\nprint(2 <= 2)\nprint({MIN} < 9223372036854775807)\nprint(3 > 4)\nprint(4 >= 5)\nprint(-1 > {MIN})\n",
+           exp(out="true\ntrue\ntrue\nfalse\nfalse\ntrue\n"))
+    yield ("equality of ints and its negation", "print(1 == 1)\nprint(1 != 1)\nprint(1 == 2)\nprint(1 != 2)\n", exp(out="true\nfalse\nfalse\ntrue\n"))
+    yield ("identity of containers", "a := [1]\nb := a\nc := [1]\nprint(a === b)\nprint(a === c)\nprint(a !== c)\nprint(a !== b)\n", exp(out="true\nfalse\ntrue\nfalse\n"))
+    yield ("identity of objects and functions", "o := {}\np := o\nfn f() {\n}\ng := f\nprint(o === p)\nprint(o === {})\nprint(f === g)\nprint(f !== g)\n", exp(out="true\nfalse\ntrue\nfalse\n"))
+    yield ("!= is the negation of == on containers", "print([1] != [1])\nprint([1] != [2])\nprint({\"a\": 1} != {\"a\": 1})\n", exp(out="false\ntrue\nfalse\n"))
+    yield ("&& and || need two bools, whatever the left one is", "print(false && 1)\n", exp(err="can't apply '&&' to 'bool' and 'int'"))
+    yield ("|| needs two bools", "print(true || \"a\")\n", exp(err="can't apply '||' to 'bool' and 'string'"))
+    yield ("logical operators", "print(true && false)\nprint(true || false)\nprint(false || false)\n", exp(out="false\ntrue\nfalse\n"))
